@@ -111,45 +111,13 @@ func init() {
 
 	// ---- sync: single-threaded execution ---------------------------------
 	nop := func(in *Interp, fr *frame, a []Value) (Value, bool) { return nil, true }
-	for _, n := range []string{"(*sync.Mutex).Lock", "(*sync.Mutex).Unlock", "(*sync.RWMutex).Lock", "(*sync.RWMutex).Unlock",
+	for _, n := range []string{"(*sync.RWMutex).Lock", "(*sync.RWMutex).Unlock",
 		"(*sync.RWMutex).RLock", "(*sync.RWMutex).RUnlock", "runtime.SetFinalizer", "runtime.KeepAlive", "runtime.GC",
 		"internal/race.Acquire", "internal/race.Release", "internal/race.ReleaseMerge", "internal/race.Disable", "internal/race.Enable",
 		"internal/race.Read", "internal/race.Write", "internal/race.ReadRange", "internal/race.WriteRange"} {
 		intrinsics[n] = nop
 	}
 	intrinsics["(*sync.Mutex).TryLock"] = func(in *Interp, fr *frame, a []Value) (Value, bool) { return true, true }
-	intrinsics["(*sync.Once).Do"] = func(in *Interp, fr *frame, a []Value) (Value, bool) {
-		o := (*a[0].(*Value)).(Struct)
-		// field 0 is "done" (atomic.Uint32 or uint32 depending on version)
-		var done bool
-		switch d := o[0].(type) {
-		case Int:
-			done = d.V != 0
-		case Struct:
-			// atomic.Uint32{_ noCopy; v uint32}
-			for _, f := range d {
-				if i, ok := f.(Int); ok && i.V != 0 {
-					done = true
-				}
-			}
-		}
-		if done {
-			return nil, true
-		}
-		switch d := o[0].(type) {
-		case Int:
-			o[0] = mkInt(1, d.W)
-		case Struct:
-			for i, f := range d {
-				if x, ok := f.(Int); ok {
-					d[i] = mkInt(1, x.W)
-				}
-			}
-		}
-		in.call(fr, token.NoPos, a[1], nil)
-		return nil, true
-	}
-
 	// ---- native helpers on concrete arguments ---------------------------
 	intrinsics["net/textproto.CanonicalMIMEHeaderKey"] = func(in *Interp, fr *frame, a []Value) (Value, bool) {
 		if s, ok := a[0].(string); ok {
